@@ -49,9 +49,12 @@ def r02_3_spill(ctx):
         caller = _sub("caller", cret, cabi, 1)
         callee = _sub("callee", eret, eabi, n)
         leaves = eret != "none" or eabi
-        callsub = Sym("callsub-stmt", methods={"getSubroutines": lambda callee=callee: [callee]})
-        other = Sym("other-stmt", methods={"getSubroutines": lambda: []})
-        mapping = {caller: [other, callsub, other], None: [other]}
+        # the routine's statements are ops (an op that is not a load / store, the re-entrant call, another op): which of its
+        # local slots the routine happens to load or store itself is irrelevant - a slot reached only through its index
+        # (by-reference helper, DynamicScratchVar) is just as much overwritten by the inner invocation
+        callsub = Sym("callsub-stmt", attrs={"$isa": {"TealOp", "TealComponent"}, "args": []}, methods={"getSubroutines": lambda callee=callee: [callee], "getOp": lambda: OpS.attrs["callsub"]})
+        other = Sym("other-stmt", attrs={"$isa": {"TealOp", "TealComponent"}, "args": []}, methods={"getSubroutines": lambda: [], "getOp": lambda: OpS.attrs["pop"]})
+        mapping = {caller: [other, callsub, other], callee: [other], None: [other]}
         slots = list(range(10, 10 + k))
         env = {
             "version": version,
@@ -70,7 +73,10 @@ def r02_3_spill(ctx):
                 return {caller: {callee}, callee: set()}
             raise Unknown()
 
-        _v, me = run_function(f.node, env, oracle, f.fq)
+        def setup(me):
+            me.isinstance_hook = lambda v, cname: ((cname.split(".")[-1] in v.attrs["$isa"]) if isinstance(v, Sym) and "$isa" in v.attrs else None)
+
+        _v, me = run_function(f.node, env, oracle, f.fq, setup=setup)
         out = mapping[caller]
         q.need(isinstance(out, list) and any(x is callsub for x in out), f"{f.fq}: the rewritten op list of the caller lost its callsub")
         st = Stack(["B1", "B2"] + [f"a{i}" for i in range(n)])
@@ -113,9 +119,10 @@ def r02_3_spill(ctx):
     for k, n, version, ((aret, aabi), (bret, babi)) in itertools.product((1, 2), (0, 1, 2), (cover_v - 1, cover_v), itertools.permutations(kinds, 2)):
         caller = _sub("caller", "none", False, 1)
         ca, cb = _sub("calleeA", aret, aabi, n), _sub("calleeB", bret, babi, n)
-        stmts = {"A": Sym("callsub-A", methods={"getSubroutines": lambda ca=ca: [ca]}), "B": Sym("callsub-B", methods={"getSubroutines": lambda cb=cb: [cb]})}
-        other = Sym("other-stmt", methods={"getSubroutines": lambda: []})
-        mapping = {caller: [other, stmts["A"], other, stmts["B"], other], None: [other]}
+        isop = {"$isa": {"TealOp", "TealComponent"}, "args": []}
+        stmts = {"A": Sym("callsub-A", attrs=dict(isop), methods={"getSubroutines": lambda ca=ca: [ca], "getOp": lambda: OpS.attrs["callsub"]}), "B": Sym("callsub-B", attrs=dict(isop), methods={"getSubroutines": lambda cb=cb: [cb], "getOp": lambda: OpS.attrs["callsub"]})}
+        other = Sym("other-stmt", attrs=dict(isop), methods={"getSubroutines": lambda: [], "getOp": lambda: OpS.attrs["pop"]})
+        mapping = {caller: [other, stmts["A"], other, stmts["B"], other], ca: [other], cb: [other], None: [other]}
         slots = list(range(10, 10 + k))
         env = {"version": version, "subroutineMapping": mapping, "subroutineGraph": {caller: {ca, cb}, ca: {caller}, cb: {caller}}, "localSlots": {caller: set(slots), ca: set(), cb: set(), None: set()}}
 
@@ -129,7 +136,7 @@ def r02_3_spill(ctx):
                 return {caller: {ca, cb}, ca: set(), cb: set()}
             raise Unknown()
 
-        run_function(f.node, env, oracle2, f.fq)
+        run_function(f.node, env, oracle2, f.fq, setup=lambda me: setattr(me, "isinstance_hook", lambda v, cname: ((cname.split(".")[-1] in v.attrs["$isa"]) if isinstance(v, Sym) and "$isa" in v.attrs else None)))
         out = mapping[caller]
         construct = f"spill-two-calls[{'cover' if version >= cover_v else 'dig'},slots={k},args={n},first={'abi-output' if aabi else aret},second={'abi-output' if babi else bret}]"
         worlds += 1
